@@ -814,6 +814,8 @@ def extract_type(idx, path, log):
         # tuple struct `pub struct Pid(u16);` or braces
         i = 0
         toks = ["pub"] + toks[toks.index("struct"):]
+        if toks[3] == ";":
+            return toks, it
         k = 2
         while toks[k] not in ("(", "{"):
             k += 1
